@@ -103,7 +103,10 @@ def cases(shard, rnd):
                    'ch': gf.rchannel(rnd), 'why': 'random'}
         # several arguments at once from the live dictionary (constants
         # found in the source of the tree under test)
-        for _ in range(shard['n_random'] // 3):
+        from ..gen import magic
+        boost = 6 if magic.pool().novel_ints or magic.pool().novel_strs \
+            else 1
+        for _ in range(boost * shard['n_random'] // 3):
             yield {'index': idx,
                    'vals': gf.assignment(rnd, spec, magic=0.7),
                    'ch': gf.rchannel(rnd), 'why': 'magic'}
